@@ -81,6 +81,8 @@ class C02(common.ModelProperty):
         "universe-member-of-other-universe",
         "admission-rule-override-rejected-a-vertex",
         "override-raised-after-recording-the-membership",
+        "removal-override-admitted-the-vertex-again",
+        "subclass-with-late-state-built-with-universes",
     ]
 
     def make_config(self, rng):
@@ -97,7 +99,9 @@ class C02(common.ModelProperty):
         cfg["p_none"] = rng.choice([0.0, 0.2, 0.4])  # half-built edges (an end still None) on members
         cfg["max_links"] = 4
         cfg["nested_universes"] = rng.random() < 0.75
-        cfg["vertex_classes"] = rng.choice([["Vertex"], ["Vertex", "SubVertex"]])
+        cfg["vertex_classes"] = rng.choice(
+            [["Vertex"], ["Vertex", "SubVertex"], ["Vertex", "JournalVertex"], ["JournalVertex", "SubVertex"]]
+        )
         cfg["universe_classes"] = rng.choice(
             [
                 ["Universe"],
@@ -108,6 +112,9 @@ class C02(common.ModelProperty):
                 ["RejectingUniverse", "FalsyUniverse"],
                 # a subclass whose override raises after super().add_vertex() for some vertices
                 ["Universe", "RaisingUniverse"],
+                # a subclass whose remove_vertex override admits some vertices again at once
+                ["Universe", "SanctuaryUniverse"],
+                ["SanctuaryUniverse", "SubUniverse"],
             ]
         )
         cfg["edge_classes"] = ["DirectedEdge"]
@@ -115,6 +122,14 @@ class C02(common.ModelProperty):
         cfg["restarts"] = rng.random() < 0.3
         cfg["weights"] = gen.swarm_weights(rng, KINDS, always=("uni_add",))
         return cfg
+
+    refusal_name = "construction-refused-before-anything-was-recorded"
+
+    def may_be_rejected(self, st, op):
+        # a construction that ends in an exception out of a user override
+        # (JournalVertex is not ready for calls while it is being built) is
+        # acceptable only if nothing at all was recorded
+        return op["op"] == "mk_vertex" and op.get("cls") == "JournalVertex" and bool(op.get("universes"))
 
     def invariants(self, snap):
         return check_membership(snap)
@@ -164,6 +179,10 @@ class C02(common.ModelProperty):
             key = (op["u"], op["v"])
             if key in getattr(st, "removed_pairs", ()):
                 s["probe:re-add-after-removal"] += 1
+        if k in ("uni_remove", "v_remove_uni") and op["u"] in objs and op["v"] in objs:
+            if st.model.readmits(op["u"], op["v"]) and op["v"] in objs[op["u"]].get("members", []):
+                s["probe:removal-override-admitted-the-vertex-again"] += 1
+                s["fault:reentrant-call-from-subclass-override"] += 1
         if k in ("uni_remove", "v_remove_uni"):
             if op["u"] in st.snap and op["v"] not in st.snap[op["u"]].get("members", []):
                 s["probe:removal-of-non-member"] += 1
@@ -171,6 +190,8 @@ class C02(common.ModelProperty):
                 if not hasattr(st, "removed_pairs"):
                     st.removed_pairs = set()
                 st.removed_pairs.add((op["u"], op["v"]))
+        if k == "mk_vertex" and op.get("cls") == "JournalVertex" and op.get("universes"):
+            s["probe:subclass-with-late-state-built-with-universes"] += 1
         if k in ("mk_vertex", "mk_universe"):
             seq = op.get("universes") or op.get("vertices") or []
             if len(set(seq)) != len(seq):
